@@ -25,8 +25,9 @@ ASSUMPTIONS = [
     "(the rest, with its error, on the next call); an error is returned with the last bytes of its chunk and is sticky (every "
     "later Read returns (0, err)); after the script every Read returns (0, io.EOF); zero-length chunks are (0, nil) reads; a Read "
     "never returns more than len(p) bytes (io.Reader contract)",
-    "io.ReadFull / io.ReadAtLeast behave as documented (transcribed in Model/PacketWriter.v read_at_least)",
-    "the reader's own error is not io.ErrUnexpectedEOF (the repaired ReadFrom cannot tell it from ReadFull's; see notes/findings/C18.md)",
+    "the script is finite: only finitely many zero-length reads before data or an error (a reader returning (0, nil) for "
+    "ever makes ReadFrom's fill loop spin, as it would io.ReadFull; ReadFrom has no cap on consecutive empty reads, so "
+    "finiteness is the whole hypothesis); the reader's error may be any value, io.ErrUnexpectedEOF included",
     "int does not overflow: lengths < 2^31",
 ]
 
@@ -165,31 +166,26 @@ def gen(rng, tier):
         k = rng.choice([-1, -1, rng.randrange(0, m + 1)])
         out.append(mk_rf(sc, k, rng.choice([0, PS, 100]), PS, rng.randrange(3), "rf-random-%s" % frag,
                          trivial=(m == 0)))
-    # fidelity: writer counts other than 188 (io.ErrShortWrite path), reader failing with io.ErrUnexpectedEOF itself
+    # fidelity: writer counts other than 188 (io.ErrShortWrite path)
     for mok in (0, 100, 189, -1):
         for frag in ("whole", "byte", "random"):
             out.append(mk_rf(script(rng, packets(rng, 2), frag, "end"), -1, 0, mok, 0, "fidelity-rf-count", decides=False))
-    for t in (0, 5):
-        sc = script(rng, packets(rng, 2) + bytes(t), "half", "end") + [(b"", 51)]
-        out.append(mk_rf(sc, -1, 0, PS, 0, "fidelity-rf-unexpected-eof", decides=False))
+    # the reader's OWN error is io.ErrUnexpectedEOF (deciding since the F2 repair no longer maps it): on a packet
+    # boundary, after a partial tail, together with the last data, under every fragmentation
+    for frag in FRAGS:
+        for t in (0, 5, 187):
+            data = packets(rng, 2) + bytes(rng.randrange(256) for _ in range(t))
+            sc = script(rng, data, frag, "end")
+            out.append(mk_rf(sc + [(b"", 51)], -1, 0, PS, 0, "rf-unexpected-eof"))
+            if sc:
+                sc2 = sc[:-1] + [(sc[-1][0], 51)]
+                out.append(mk_rf(sc2, -1, 0, PS, 0, "rf-unexpected-eof"))
+    # long runs of zero-length reads (ReadFrom has no cap on them, unlike bufio)
+    for m in (99, 100, 150, 400):
+        d = packets(rng, 2)
+        sc = [(d[:100], 0)] + [(b"", 0)] * m + [(d[100:], 0)] + [(b"", 0)] * m
+        out.append(mk_rf(sc, -1, 0, PS, 0, "rf-many-empty-reads"))
     return out
-
-
-def oracle(c, real, model):
-    """kind fidelity-rf-unexpected-eof: the reader's OWN error is io.ErrUnexpectedEOF.  The candidate repair (and the
-    model) report it as a clean end of stream; a repair that returns the reader's error (51) instead satisfies the
-    property at least as well, so both outcomes are accepted (never alarm on code where the property holds)."""
-    if c.kind != "fidelity-rf-unexpected-eof":
-        return None
-    if real == model:
-        return ""
-    try:
-        r, m = parse_val(real), parse_val(model)
-        if r[0] == 0 and m[0] == 0 and r[1][0] == m[1][0] and r[1][2:] == m[1][2:] and r[1][1] == 51:
-            return ""
-    except Exception:
-        pass
-    return None
 
 
 def _parse(c):
@@ -268,7 +264,7 @@ LEVEL_TEXT = ("Proof: Coq theorems (Properties/C18.v) over a model of packetWrit
               "chunks in order, the count is 188 x delivered, invalid-length iff a partial tail, the reader's or writer's error "
               "otherwise, nothing delivered after a failure; never Panic/Diverge. By induction over chunks / scripts, no axioms. "
               "Tied to /repo on every run by executing model and real adapters on the fragmentation grid.")
-LEVEL_NOTE = ("Trusted: Coq kernel; the transcription Model/PacketWriter.v incl. io.ReadFull; the oracle contracts (sticky reader "
-              "error, reader error other than io.ErrUnexpectedEOF); extraction and glue. Not covered: retention/aliasing of the "
+LEVEL_NOTE = ("Trusted: Coq kernel; the transcription Model/PacketWriter.v; the oracle contracts (finite script, sticky reader "
+              "error); extraction and glue. Not covered: retention/aliasing of the "
               "packet pointer by the wrapped writer (goexec copies at call time).")
 TECHNIQUE = "Coq proof by induction over chunks and read scripts with writer/reader oracles + model/implementation correspondence over fragmentation classes"
